@@ -9,6 +9,7 @@ import (
 	"regexp"
 	"sort"
 	"strconv"
+	"strings"
 
 	"golang.org/x/tools/go/cfg"
 
@@ -545,6 +546,45 @@ func ruleOuterCompleteWaitsInner() check.Rule {
 						if all {
 							uncond = e
 							break
+						}
+					}
+					// live-subscription counter: incremented before each inner subscribe call
+					for _, in := range sc.SubSites {
+						if in == outer || in.Ctx != outer.Src || in.Slot != model.SlotNext || in.Src == nil || in.Src.Awaited {
+							continue
+						}
+						fn := innermostFunc(m, in.Pkg, in.Call)
+						body := funcBody(fn)
+						if body == nil {
+							continue
+						}
+						var incs []*ast.CallExpr
+						ast.Inspect(body, func(x ast.Node) bool {
+							if l, ok := x.(*ast.FuncLit); ok && ast.Node(l) != fn {
+								return false
+							}
+							if call, ok := x.(*ast.CallExpr); ok {
+								if cl := model.Callee(in.Pkg.TypesInfo, call); cl != nil && cl.Pkg() != nil && cl.Pkg().Path() == "sync/atomic" && strings.HasPrefix(cl.Name(), "Add") && len(call.Args) == 2 {
+									if v, ok := constVal(in.Pkg.TypesInfo, call.Args[1]); ok && v > 0 {
+										incs = append(incs, call)
+									}
+								}
+							}
+							return true
+						})
+						if len(incs) == 0 {
+							continue
+						}
+						ckey := in.Key + "/counted-before-subscribe"
+						inc := incs[0]
+						if pathsPassBefore(body, in.Call, func(n ast.Node) bool {
+							return n.Pos() <= inc.Pos() && inc.End() <= n.End() && !(n.Pos() <= in.Call.Pos() && in.Call.End() <= n.End())
+						}) {
+							if armed {
+								c.OK(ckey, in.Pos, "the live-subscription counter is incremented before the inner observable is subscribed")
+							}
+						} else {
+							c.Report(armed, ckey, in.Pos, "the inner observable is subscribed before the live-subscription counter is incremented: an inner observable that completes synchronously decrements first, the counter reaches zero and the output completes while other sources are still running")
 						}
 					}
 					if uncond != nil {
